@@ -549,6 +549,26 @@ func classifyConc(sc *ConcScenario, recs []callRec, v *Violation, init map[strin
 	if sameKey {
 		trig = append(trig, "concurrent-updates-same-key")
 	}
+	if sc.Cfg.Immutable && v.Symptom == "not-linearizable" {
+		// two overlapping Puts of one key that the store did not hold both
+		// returned nil: in an immutable store the second must be refused
+		for i := range recs {
+			for j := i + 1; j < len(recs); j++ {
+				a, b := recs[i], recs[j]
+				if a.Thread == b.Thread || !overlap(a, b) || a.Op.Kind != OpPut || b.Op.Kind != OpPut || a.Key != b.Key {
+					continue
+				}
+				if _, present := init[a.Key]; present {
+					continue
+				}
+				if a.Returned && b.Returned && a.Err == "" && b.Err == "" && a.Op.V != b.Op.V {
+					trig = append(trig, "both-puts-of-absent-key-succeed-in-immutable-store")
+					i = len(recs)
+					break
+				}
+			}
+		}
+	}
 	if prefixPair {
 		trig = append(trig, "remove-concurrent-with-update-in-same-bucket")
 	}
@@ -691,7 +711,9 @@ func c05Scenarios(tier string) []*ConcScenario {
 	for ci, c := range cfgs {
 		for ii, in := range inits {
 			for pi, pr := range pairs {
-				if tier == "quick" && ci > 0 && (ii%2 != ci%2 || pi%3 != ci%3) {
+				if tier == "quick" && ci > 0 && (ii%2 != ci%2 || pi%3 != ci%3) && !(c.Immutable && pi == 0 && ii%2 == ci%2) {
+					// (two Puts of one key are always run in immutable mode:
+					// the second must be refused)
 					continue
 				}
 				for _, withFlush := range []bool{false, true} {
